@@ -412,6 +412,10 @@ func (vr *variableResolver) resolve(ctx *ExecutionContext) (*Value, error) {
 			if current.Kind() != reflect.Func {
 				return nil, fmt.Errorf("'%s' is not a function (it is %s)", vr.String(), current.Kind().String())
 			}
+			if current.IsNil() {
+				// a nil func value: nothing to call
+				return AsValue(nil), nil
+			}
 
 			// Check for correct function syntax and types
 			// func(*Value, ...) *Value
